@@ -26,6 +26,7 @@ def gen_stimuli(chk, module, cfg, name, timeout=900):
         raise ToolError(f"generator {cfg} produced no stimuli")
     chk.cov.setdefault("generated_stimuli", 0)
     chk.cov["generated_stimuli"] += n
+    chk.ctx_gen = {"module": module, "cfg": cfg, "name": name}
     chk.cov["mc"].append({"instance": cfg, "distinct_states": res["distinct"],
                           "states_generated": res["generated"], "wall_s": round(res["wall"], 1), "role": "generator"})
     return out, n
@@ -140,6 +141,8 @@ def drive(chk, family, extra=None, name=None):
     trace = os.path.join(chk.wd, (name or family) + ".ndjson")
     stats = chk.cov.setdefault("driver_stats", {})
     pmv(["drive", family, "--seed", chk.seed, "--tier", t, "--out", trace] + (extra or []), stats=stats)
+    chk.ctx_drive = {"family": family, "extra": [str(x) for x in (extra or [])], "name": name or family,
+                     "gen": getattr(chk, "ctx_gen", None) if extra and "--stim" in [str(x) for x in extra] else None}
     return trace
 
 
@@ -444,6 +447,7 @@ def c06(chk):
     need_stat(chk, "writedirs_spilled", 8)
     need_stat(chk, "writedirs_single_root", 8)
     need_stat(chk, "writedirs_first_attempt_inside_window", 2)
+    need_stat(chk, "writedirs_leaf_size_doubled", 2)
     chk.validate("Trace_Archive", trace, "writedirs", scope=scope_of("C06"), parallel=8, timeout=3000)
     def is_spill(o):
         return o["ev"] == "WriteDirs" and o["res"] == "ok" and len(o.get("leaves", [])) >= 2
@@ -746,15 +750,37 @@ REGISTRY = {"C01": c01, "C02": c02, "C03": c03, "C04": c04, "C06": c06, "C11": c
 
 
 def replay(pid, path):
-    """Re-validate the single event stored in a replay file."""
+    """Re-execute the recorded scenario on the real code: regenerate the stimuli with TLC, re-run the
+    driver with the recorded seed against the current /repo build, validate the fresh trace, and report
+    whether the recorded deviation (same event kind and clause tag) still occurs."""
     r = json.load(open(path))
-    wd = vlib.workdir(pid + "_replay")
-    p = os.path.join(wd, "event.ndjson")
-    with open(p, "w") as f:
-        f.write(json.dumps(r["event"]) + "\n")
-    n, fails, _ = vlib.validate_trace(r["module"], p, wd, "replay")
-    if fails:
-        log(f"VIOLATION property={pid} replay={path}   # {fails[0]}")
+    vlib.build_harness()
+    chk = vlib.Check(pid + "_replay", r.get("tier", "quick"), int(r.get("seed", 1)))
+    d = r.get("drive")
+    if not d:
+        # older replay files: re-validate the stored event only
+        p = os.path.join(chk.wd, "event.ndjson")
+        with open(p, "w") as f:
+            f.write(json.dumps(r["event"]) + "\n")
+        n, fails, _ = vlib.validate_trace(r["module"], p, chk.wd, "replay")
+        hit = [x for x in fails if not str(x[2]).startswith(("INFO", "STIMULUS", "TRANSPORT"))]
+        if hit:
+            log(f"VIOLATION property={pid} replay={path}   # {hit[0][1:]} (stored event re-validated)")
+            return 1
+        log("stored event accepted by the specification")
+        return 0
+    extra = list(d["extra"])
+    if d.get("gen"):
+        g = d["gen"]
+        stim, _ = gen_stimuli(chk, g["module"], g["cfg"], g["name"])
+        extra[extra.index("--stim") + 1] = stim
+    trace = os.path.join(chk.wd, d["name"] + ".ndjson")
+    pmv(["drive", d["family"], "--seed", r["seed"], "--tier", r.get("tier", "quick"), "--out", trace] + extra)
+    vlib.lint_trace(trace)
+    n, fails, _ = vlib.validate_trace(r["module"], trace, chk.wd, "replay", timeout=3000, parallel=6, cuts=True)
+    same = [x for x in fails if x[1] == r["ev"] and x[2] == r["tag"]]
+    if same:
+        log(f"VIOLATION property={pid} replay={path}   # re-executed: {r['ev']}: {r['tag']} at event {same[0][0]} ({len(same)} events)")
         return 1
-    log("replayed event accepted by the specification")
+    log(f"re-executed {n} events with seed {r['seed']}: the recorded deviation {r['ev']}: {r['tag']} does not occur any more")
     return 0
